@@ -577,7 +577,7 @@ pub fn classify_prefix(e: &EarlyMsg, p: usize) -> &'static str {
         "nothing"
     } else if p < e.sl {
         "inStatusLine"
-    } else if p == e.sl || (p == e.sl + 1 && e.first_field_end == e.sl) {
+    } else if p < total && (p == e.sl || (p == e.sl + 1 && e.first_field_end == e.sl)) {
         "afterStatusLine"
     } else if p >= total {
         if !e.is_refusal() {
